@@ -528,6 +528,19 @@ class Emitter {
       if (R->isLambda()) o["lambda"] = true;
       if (isa<CXXConstructorDecl>(M)) o["ctor"] = true;
       if (isa<CXXDestructorDecl>(M)) o["dtor"] = true;
+      switch (M->getAccess()) {
+        case AS_public: o["access"] = "public"; break;
+        case AS_protected: o["access"] = "protected"; break;
+        case AS_private: o["access"] = "private"; break;
+        default: break;
+      }
+      if (M->isCopyAssignmentOperator()) o["copyassign"] = true;
+      if (M->isMoveAssignmentOperator()) o["moveassign"] = true;
+      if (auto* CD = dyn_cast<CXXConstructorDecl>(M)) {
+        if (CD->isCopyConstructor()) o["copyctor"] = true;
+        if (CD->isMoveConstructor()) o["movector"] = true;
+        if (CD->isDefaultConstructor()) o["defaultctor"] = true;
+      }
     }
     if (F->getTemplateSpecializationArgs()) o["targs"] = templArgs(F->getTemplateSpecializationArgs());
     o["constexpr"] = F->isConstexpr();
@@ -538,6 +551,13 @@ class Emitter {
       p["n"] = V->getNameAsString();
       p["id"] = declId(V);
       p["t"] = typeStr(V->getType());
+      {
+        QualType NT = V->getType().getNonReferenceType();
+        if (NT->isEnumeralType()) p["enum"] = true;
+        if (NT->isScalarType()) p["scalar"] = true;
+        if (NT->isIntegralOrEnumerationType()) p["integral"] = true;
+        if (const CXXRecordDecl* PR = NT->getAsCXXRecordDecl()) p["rec"] = qname(PR);
+      }
       ps.push_back(std::move(p));
     }
     o["params"] = std::move(ps);
@@ -573,6 +593,13 @@ class Emitter {
       f["n"] = F->getNameAsString();
       f["t"] = typeStr(F->getType());
       f["idx"] = (int64_t)F->getFieldIndex();
+      if (F->isAnonymousStructOrUnion()) f["anon"] = true;
+      if (F->getType()->isScalarType()) f["scalar"] = true;
+      if (F->getType()->isEnumeralType()) f["enum"] = true;
+      if (const CXXRecordDecl* FR = F->getType()->getAsCXXRecordDecl()) {
+        f["rec"] = qname(FR);
+        if (FR->isUnion()) f["recunion"] = true;
+      }
       if (F->isMutable()) f["mutable"] = true;
       if (F->hasInClassInitializer() && F->getInClassInitializer()) f["init"] = expr(F->getInClassInitializer());
       fs.push_back(std::move(f));
